@@ -314,6 +314,22 @@ fn pivot_cloud(rng: &mut Rng) {
             }
             v.require(bad_touch.is_none(), "ball_pivot.centre_one_radius_from_both_points", || format!("n={n} radius={radius} step {:?}", bad_touch));
             v.require(bad_inside.is_none(), "ball_pivot.no_point_strictly_inside_ball", || format!("n={n} radius={radius} (step, point, distance) {:?}", bad_inside));
+            // the loop itself, statement by statement, in the model (start resolved as the code resolves StartOnConvex)
+            if n <= 400 {
+                let hull = convex_hull_2d(&pts);
+                let sv = pts[hull[1]] - pts[hull[0]];
+                let sd = engeom::Iso2::rotation(-std::f64::consts::FRAC_PI_2) * sv;
+                let mut i = Tok::new();
+                crate::curves::pts2(&mut i, &pts);
+                i.n(hull[0]).f(sd.x).f(sd.y).w("-").b(matches!(dir, AngleDir::Ccw)).f(radius);
+                let mut o = Tok::new();
+                o.w("ok").nlist(&idx);
+                o.n(centers.len());
+                for c in &centers {
+                    o.f(c.x).f(c.y);
+                }
+                emit("hull.pivot", &i, &o, &Verdict::new());
+            }
         }
     }
     emit_oracle_only("hull.pivot_cloud", &Tok::new(), &Tok::new(), &v);
